@@ -129,6 +129,32 @@ func (m *CPU) Run(app risc.Application) (int, error) {
 
 		if ret {
 			log.Info(m.ctx, "\t🛑 Return")
+			// Complete the instructions older than the return that are still in an
+			// execute unit (a cache-missing load, for instance) before ending the run
+			for {
+				busy := false
+				for _, eu := range m.executeUnits {
+					if !eu.isEmpty() {
+						busy = true
+					}
+				}
+				if !busy {
+					break
+				}
+				m.ctx.VerifTick()
+				cycle++
+				m.writeBus.Connect(cycle)
+				for _, eu := range m.executeUnits {
+					if !eu.isEmpty() {
+						if _, _, _, _, err := eu.cycle(cycle, m.ctx, app); err != nil {
+							return 0, err
+						}
+					}
+				}
+				for _, wu := range m.writeUnits {
+					wu.cycle(m.ctx, -1)
+				}
+			}
 			m.counterFlush++
 			cycle++
 			m.writeBus.Connect(cycle)
